@@ -73,6 +73,9 @@ type Exec struct {
 	effBusy      map[*ssa.Function]bool
 	curPos       token.Pos
 	prevTop      string
+	curBlock     *ssa.BasicBlock
+	rootFresh    map[string]bool
+	loopFresh    map[*loopInfo]map[string]bool
 	bvArith      bool
 	natDone      map[string]bool
 	natTerms     map[int][][2]string
@@ -83,7 +86,7 @@ func newExec(P *Program, bv bool) *Exec {
 		oblCount: map[string]int{}, logicals: map[string]*Val{}, tags: map[string]int{}, globalRefs: map[*ssa.Global]int{},
 		usedContract: map[string]bool{}, usedModels: map[string]bool{}, inlined: map[string]bool{},
 		genTop: map[int]string{}, genMerges: map[int]genMerge{}, keyInfo: map[string]compInfo{}, effCache: map[*ssa.Function]*WriteSet{}, effBusy: map[*ssa.Function]bool{},
-		natDone: map[string]bool{}, natTerms: map[int][][2]string{}}
+		natDone: map[string]bool{}, natTerms: map[int][][2]string{}, rootFresh: map[string]bool{}, loopFresh: map[*loopInfo]map[string]bool{}}
 	return x
 }
 
@@ -453,7 +456,36 @@ func (x *Exec) enterLoop(f *frame, li *loopInfo, st *State) {
 	top := x.sc.declare("top", "Int")
 	x.sc.assume("(>= " + top + " " + st.allocTop + ")")
 	st.allocTop = top
+	// fresh-only components: remember the pre-loop contents of old objects
+	fresh := map[string]bool{}
+	if f.top || x.spec == 0 {
+		if ctr := x.P.cs.byKey[fnKey(f.fn)]; ctr != nil {
+			if f.fn == x.root {
+				for k := range x.rootFresh {
+					fresh[k] = true
+				}
+				if items, ok := ctr.LoopFresh[li.ord]; ok {
+					lf := x.expandKeys(items)
+					x.loopFresh[li] = lf
+					for k := range lf {
+						fresh[k] = true
+					}
+				}
+			}
+		}
+	}
+	before := map[string]*HeapSym{}
+	for _, k := range ws.sortedKeys() {
+		if fresh[k] {
+			before[k] = x.heapSym(st, k, x.compInfoOfKey(k))
+		}
+	}
 	x.havocKeys(st, ws.sortedKeys())
+	for _, k := range ws.sortedKeys() {
+		if b, ok := before[k]; ok {
+			x.frameOld(b, st.heap[k], x.top0)
+		}
+	}
 	for _, b := range rpo(f.fn) {
 		if !li.body[b] {
 			continue
@@ -568,6 +600,32 @@ func (x *Exec) autoInvariants(f *frame, li *loopInfo) []autoInv {
 			continue
 		}
 		cv := c
+		// range loops: t = phi + 1; if t < N: the index never passes N
+		if phi.Comment == "rangeindex" {
+			for _, ins2 := range li.header.Instrs {
+				cmpI, ok := ins2.(*ssa.BinOp)
+				if !ok || cmpI.Op != token.LSS {
+					continue
+				}
+				inc, ok := cmpI.X.(*ssa.BinOp)
+				if !ok || inc.Op != token.ADD || inc.X != ssa.Value(phi) {
+					continue
+				}
+				bound := cmpI.Y
+				if bi, isInstr := bound.(ssa.Instruction); isInstr && li.body[bi.Block()] {
+					continue
+				}
+				phi2 := phi
+				out = append(out, autoInv{name: "rangeindex<N", eval: func(st *State, ov map[*ssa.Phi]*Val) string {
+					v := f.env[phi2]
+					if ov != nil && ov[phi2] != nil {
+						v = ov[phi2]
+					}
+					n := x.val(f, bound)
+					return x.sc.iLe(x.sc.iAdd(v.S, x.sc.iConst(1)), n.S)
+				}})
+			}
+		}
 		out = append(out, autoInv{name: phi.Comment + ">=" + cv.Value.String(), eval: func(st *State, ov map[*ssa.Phi]*Val) string {
 			v := f.env[phi]
 			if ov != nil && ov[phi] != nil {
@@ -789,6 +847,9 @@ func (x *Exec) evalClauseFn(name string, args []*Val, st *State, old *State) str
 // ---- blocks and instructions ----
 
 func (x *Exec) execBlock(f *frame, b *ssa.BasicBlock, st *State) {
+	if f.fn == x.root {
+		x.curBlock = b
+	}
 	for _, ins := range b.Instrs {
 		if st.pc == "false" {
 			break
